@@ -1,7 +1,7 @@
 """Rules over the VM (engine E1): C19, C20.A1, C17, C05, C06 and the VM-side clauses of
 C01 / C03.  Every rule is evaluated on the effect summaries computed from the *current*
 VM/src/vm.cpp; nothing here matches source text or positions."""
-from .facts import AnalysisBroken, show, walk_stmts, walk_all_exprs, locstr, stmt_children, strip_casts
+from .facts import AnalysisBroken, show, walk_stmts, walk_all_exprs, walk_expr, locstr, stmt_children, strip_casts
 from .symex import (Val, C, INT_MAX, is_const, lin_parts, t_add, t_show, lp_show)
 from .vmfx import VMModel, fmt_iv, THIS
 
@@ -742,6 +742,43 @@ def execute_by_cases(ex, calls):
 def c06(rep, model):
     groups = model.handler_paths()
     st = model.lp('stepping')
+    # a copy of a machine is that machine: a hand-written copy / move constructor or assignment of VM transfers every field (the implicit one does)
+    M_ = rep.rule('C06.m', 'a copied machine has the state of the original: VM has the implicit copy operations, or hand-written ones that transfer every field', floor=0)
+    try:
+        vrec = model.facts.record('Theo::VM')
+        vfields = [x['name'] for x in vrec['fields']]
+        found = False
+        for f2 in model.facts.functions:
+            if f2.get('rec') != 'Theo::VM' or f2.get('body') is None or len(f2.get('params', [])) != 1 or f2['tmpl'] == 'pattern':
+                continue
+            pt = (f2['params'][0].get('cty') or '').replace('const ', '').replace('&', '').strip()
+            if pt not in ('Theo::VM', 'VM') or not (f2.get('kind') == 'ctor' or f2.get('name') == 'operator='):
+                continue
+            found = True
+            pd_ = f2['params'][0]['d']
+            moved = set(ci.get('field') for ci in (f2.get('ctor_inits') or []) if ci.get('init') is not None and
+                        any(y.get('k') == 'ref' and y.get('d') == pd_ for y in walk_expr(ci['init'])))
+            for x in walk_all_exprs(f2['body']):
+                t_ = strip_casts(x.get('l')) if x.get('k') == 'assign' else (strip_casts(x.get('obj')) if x.get('k') == 'call' and (x.get('callee') or '').endswith('::operator=') else None)
+                src_ = x.get('r') if x.get('k') == 'assign' else ((x.get('args') or [None])[0] if x.get('k') == 'call' else None)
+                if t_ is not None and t_.get('k') == 'member' and src_ is not None and any(y.get('k') == 'ref' and y.get('d') == pd_ for y in walk_expr(src_)):
+                    moved.add(t_['name'])
+            # a delegating constructor VM(other.code) initialises `code` from the original
+            for ci in (f2.get('ctor_inits') or []):
+                if ci.get('delegating') or ci.get('field') is None:
+                    moved.add('code')
+            if any(x.get('k') in ('construct', 'call') and 'VM' in (x.get('rec') or x.get('callee') or '') and any(y.get('k') == 'member' and y.get('name') == 'code' for a in x.get('args', []) for y in walk_expr(a))
+                   for ci in (f2.get('ctor_inits') or []) for x in walk_expr(ci.get('init') or {})):
+                moved.add('code')
+            missing = [n_ for n_ in vfields if n_ not in moved]
+            M_.check(not missing, 'VM::%s(%s)' % (f2['name'], f2['params'][0].get('cty')), 'transfers every field %s' % vfields,
+                     'the hand-written copy operation of VM does not transfer %s: a copied machine (a snapshot, a machine passed by value) differs from the original in its debugger state - '
+                     'armed sites without a recorded location, or a stepping flag that is lost' % missing, _where(model, f2, f2['loc'][1:]),
+                     witness={'history': 'setBreakPoint / setSteppingMode(true), copy the machine, execute() on the copy'} if missing else None)
+        if not found:
+            M_.ok('VM copy operations', 'implicit (member-wise) copy and assignment', 'VM/include/vm.hpp', nontrivial=False)
+    except AnalysisBroken as ex_:
+        M_.unknown('VM copy operations', str(ex_))
     A = rep.rule('C06.a', 'stop conditions: POTENTIAL_BREAK returns the stepping flag, BREAK and HALT return true, '
                           'every other opcode returns false', floor=12)
     for op, ps in groups.items():
